@@ -204,3 +204,42 @@ func ZZWalTrimmer(n int) {
 	_ = context.Background()
 	vReach("end")
 }
+
+// ZZWalSyncPipeline (C08/C09): SyncData=true. A single writer pipelines n AppendAndSync calls while the
+// real runSync goroutine batches the sync requests; every lock acquisition of the WAL is a preemption
+// point. A sync callback may only report success when the WAL's synced offset already covers the
+// entry it belongs to ("stored on the leader" is what the commit rule counts).
+func ZZWalSyncPipeline(n, reps int) {
+	for rep := 0; rep < reps; rep++ {
+		zzWalSyncPipelineOnce(n)
+	}
+	vReach("end")
+}
+
+func zzWalSyncPipelineOnce(n int) {
+	zzDisk = map[int64]*zzSegData{}
+	sample, _ := pb.Marshal(zzEntry(1, 1000))
+	opts := &FactoryOptions{BaseWalDir: vTempDir(), Retention: time.Second, SegmentSize: int32((n+4)*(12+len(sample)+4) + 6), SyncData: true}
+	zzSegCap = n + 4
+	wi, err := newWal("zz", 1, opts, &zzCommit{off: 1 << 40}, &zzWClock{}, time.Hour)
+	vAssert("open-ok", err == nil)
+	w := wi.(*wal)
+	done := make(chan int64, n+1)
+	for i := 0; i < n; i++ {
+		off := int64(i)
+		w.AppendAndSync(zzEntry(off, 1000), func(err error) {
+			if err != nil {
+				vReach("sync-error: " + err.Error())
+			}
+			vAssert("sync-callback-ok", err == nil)
+			vAssert("synced-offset-covers-the-acknowledged-entry", w.LastOffset() >= off)
+			done <- off
+		})
+	}
+	for i := 0; i < n; i++ {
+		<-done
+	}
+	vAssert("all-synced", w.LastOffset() == int64(n-1))
+	zzSegCap = 2
+	_ = w.Close()
+}
